@@ -117,6 +117,60 @@ type placement struct {
 	pre func(v *gen.TV) *gen.TV
 	cfg func(v *gen.Tree) *gen.Tree // the top-level configuration object holding the setting
 	top bool                        // the placement is the Unpack target itself (a collection), not the field "a" of a struct
+	// placements through an interface: the dynamic types of the pre-filled values the interfaces hold (Case.Dyn)
+	dyn func(inner *gen.TD) []*gen.TD
+}
+
+func ifc() *gen.TD { return &gen.TD{Kind: "iface"} }
+
+// held wraps a value as the payload of an interface whose dynamic type is Dyn[k].
+func held(k int) func(v *gen.TV) *gen.TV {
+	return func(v *gen.TV) *gen.TV {
+		if v == nil {
+			return nil
+		}
+		return dynTV(k, v)
+	}
+}
+
+// heldPtr: the interface holds a pointer to the value (dynamic type Dyn[k] = *T).
+func heldPtr(k int) func(v *gen.TV) *gen.TV {
+	return func(v *gen.TV) *gen.TV {
+		if v == nil {
+			return nil
+		}
+		return dynTV(k, tvPtr(v))
+	}
+}
+
+func ifacePlacements() []placement {
+	self := func(i *gen.TD) []*gen.TD { return []*gen.TD{i} }
+	ptrTo := func(i *gen.TD) []*gen.TD { return []*gen.TD{tdOf("ptr", i)} }
+	toIfc := func(*gen.TD) *gen.TD { return ifc() }
+	ident := func(v *gen.Tree) *gen.Tree { return v }
+	holderJ := func() *gen.TD { return &gen.TD{Kind: "struct", Fields: []gen.FD{{Name: "B", Tag: "b", T: ifc()}}} }
+	return []placement{
+		{"interface{} holding T", toIfc, "", held(0), topA, false, self},
+		{"interface{} holding *T", toIfc, "", heldPtr(0), topA, false, ptrTo},
+		{"interface{} holding **T", toIfc, "", func(v *gen.TV) *gen.TV { return dynTV(0, tvPtr(tvPtr(v))) }, topA, false,
+			func(i *gen.TD) []*gen.TD { return []*gen.TD{tdOf("ptr", tdOf("ptr", i))} }},
+		{"[]interface{} holding T", func(*gen.TD) *gen.TD { return tdOf("slice", ifc()) }, "list", mapEach(held(0)), topA, false, self},
+		{"[]interface{} holding *T", func(*gen.TD) *gen.TD { return tdOf("slice", ifc()) }, "list", mapEach(heldPtr(0)), topA, false, ptrTo},
+		{"[2]interface{} holding *T", func(*gen.TD) *gen.TD { return arr2(ifc()) }, "array", mapEach(heldPtr(0)), topA, false, ptrTo},
+		{"map[string]interface{} holding T", func(*gen.TD) *gen.TD { return tdOf("map", ifc()) }, "map", mapEach(held(0)), topA, false, self},
+		{"map[string]interface{} holding *T", func(*gen.TD) *gen.TD { return tdOf("map", ifc()) }, "map", mapEach(heldPtr(0)), topA, false, ptrTo},
+		{"interface{} holding []T", toIfc, "list", held(0), topA, false, func(i *gen.TD) []*gen.TD { return []*gen.TD{tdOf("slice", i)} }},
+		{"interface{} holding map[string]T", toIfc, "map", held(0), topA, false, func(i *gen.TD) []*gen.TD { return []*gen.TD{tdOf("map", i)} }},
+		{"interface{} holding map[string]interface{} holding *T", toIfc, "map", func(v *gen.TV) *gen.TV { return dynTV(0, mapEach(heldPtr(1))(v)) }, topA, false,
+			func(i *gen.TD) []*gen.TD { return []*gen.TD{tdOf("map", ifc()), tdOf("ptr", i)} }},
+		{"interface{} holding *struct with an interface{} field holding T", toIfc, "", func(v *gen.TV) *gen.TV { return dynTV(0, tvPtr(tvS(dynTV(1, v)))) },
+			func(v *gen.Tree) *gen.Tree { return objOf("a", objOf("b", v)) }, false,
+			func(i *gen.TD) []*gen.TD { return []*gen.TD{tdOf("ptr", holderJ()), i} }},
+		{"inline map[string]interface{} holding *T", func(*gen.TD) *gen.TD { return oneInline("", tdOf("map", ifc())) }, "map",
+			func(v *gen.TV) *gen.TV { return tvS(mapEach(heldPtr(0))(v)) }, topA, false, ptrTo},
+		{"target map[string]interface{} holding T", func(*gen.TD) *gen.TD { return tdOf("map", ifc()) }, "map", mapEach(held(0)), ident, true, self},
+		{"target []interface{} holding *T", func(*gen.TD) *gen.TD { return tdOf("slice", ifc()) }, "list", mapEach(heldPtr(0)), ident, true, ptrTo},
+	}
 }
 
 func tdOf(kind string, elem *gen.TD) *gen.TD { return &gen.TD{Kind: kind, Elem: elem} }
@@ -144,42 +198,42 @@ func placements() []placement {
 		}
 	}
 	return []placement{
-		{"direct", func(i *gen.TD) *gen.TD { return i }, "", same1, topA, false},
-		{"*T", func(i *gen.TD) *gen.TD { return tdOf("ptr", i) }, "", tvPtr, topA, false},
-		{"**T", func(i *gen.TD) *gen.TD { return tdOf("ptr", tdOf("ptr", i)) }, "", func(v *gen.TV) *gen.TV { return tvPtr(tvPtr(v)) }, topA, false},
-		{"nested struct", holder(false), "", func(v *gen.TV) *gen.TV { return tvS(v) }, func(v *gen.Tree) *gen.Tree { return objOf("a", objOf("b", v)) }, false},
-		{"*nested struct", func(i *gen.TD) *gen.TD { return tdOf("ptr", holder(false)(i)) }, "", func(v *gen.TV) *gen.TV { return tvPtr(tvS(v)) }, func(v *gen.Tree) *gen.Tree { return objOf("a", objOf("b", v)) }, false},
-		{"inline struct", holder(true), "", func(v *gen.TV) *gen.TV { return tvS(v) }, func(v *gen.Tree) *gen.Tree { return objOf("b", v) }, false},
-		{"[]T", func(i *gen.TD) *gen.TD { return tdOf("slice", i) }, "list", same1, topA, false},
-		{"[2]T", arr2, "array", same1, topA, false},
-		{"map[string]T", func(i *gen.TD) *gen.TD { return tdOf("map", i) }, "map", same1, topA, false},
-		{"[]*T", func(i *gen.TD) *gen.TD { return tdOf("slice", tdOf("ptr", i)) }, "list", mapEach(tvPtr), topA, false},
-		{"map[string]*T", func(i *gen.TD) *gen.TD { return tdOf("map", tdOf("ptr", i)) }, "map", mapEach(tvPtr), topA, false},
-		{"*[]T", func(i *gen.TD) *gen.TD { return tdOf("ptr", tdOf("slice", i)) }, "list", tvPtr, topA, false},
-		{"*map[string]T", func(i *gen.TD) *gen.TD { return tdOf("ptr", tdOf("map", i)) }, "map", tvPtr, topA, false},
-		{"*[2]T", func(i *gen.TD) *gen.TD { return tdOf("ptr", arr2(i)) }, "array", tvPtr, topA, false},
+		{"direct", func(i *gen.TD) *gen.TD { return i }, "", same1, topA, false, nil},
+		{"*T", func(i *gen.TD) *gen.TD { return tdOf("ptr", i) }, "", tvPtr, topA, false, nil},
+		{"**T", func(i *gen.TD) *gen.TD { return tdOf("ptr", tdOf("ptr", i)) }, "", func(v *gen.TV) *gen.TV { return tvPtr(tvPtr(v)) }, topA, false, nil},
+		{"nested struct", holder(false), "", func(v *gen.TV) *gen.TV { return tvS(v) }, func(v *gen.Tree) *gen.Tree { return objOf("a", objOf("b", v)) }, false, nil},
+		{"*nested struct", func(i *gen.TD) *gen.TD { return tdOf("ptr", holder(false)(i)) }, "", func(v *gen.TV) *gen.TV { return tvPtr(tvS(v)) }, func(v *gen.Tree) *gen.Tree { return objOf("a", objOf("b", v)) }, false, nil},
+		{"inline struct", holder(true), "", func(v *gen.TV) *gen.TV { return tvS(v) }, func(v *gen.Tree) *gen.Tree { return objOf("b", v) }, false, nil},
+		{"[]T", func(i *gen.TD) *gen.TD { return tdOf("slice", i) }, "list", same1, topA, false, nil},
+		{"[2]T", arr2, "array", same1, topA, false, nil},
+		{"map[string]T", func(i *gen.TD) *gen.TD { return tdOf("map", i) }, "map", same1, topA, false, nil},
+		{"[]*T", func(i *gen.TD) *gen.TD { return tdOf("slice", tdOf("ptr", i)) }, "list", mapEach(tvPtr), topA, false, nil},
+		{"map[string]*T", func(i *gen.TD) *gen.TD { return tdOf("map", tdOf("ptr", i)) }, "map", mapEach(tvPtr), topA, false, nil},
+		{"*[]T", func(i *gen.TD) *gen.TD { return tdOf("ptr", tdOf("slice", i)) }, "list", tvPtr, topA, false, nil},
+		{"*map[string]T", func(i *gen.TD) *gen.TD { return tdOf("ptr", tdOf("map", i)) }, "map", tvPtr, topA, false, nil},
+		{"*[2]T", func(i *gen.TD) *gen.TD { return tdOf("ptr", arr2(i)) }, "array", tvPtr, topA, false, nil},
 		{"[][]T", func(i *gen.TD) *gen.TD { return tdOf("slice", tdOf("slice", i)) }, "list", func(v *gen.TV) *gen.TV {
 			if v == nil || v.Nil {
 				return v
 			}
 			return tvS(v) // one inner slice holding the elements
-		}, func(v *gen.Tree) *gen.Tree { return objOf("a", gen.List(v)) }, false},
+		}, func(v *gen.Tree) *gen.Tree { return objOf("a", gen.List(v)) }, false, nil},
 		// inline collections: struct { C []T `config:",inline"` } etc. in the field "a"; the setting of "a" is the list / object
-		{"inline []T", func(i *gen.TD) *gen.TD { return oneInline("", tdOf("slice", i)) }, "list", func(v *gen.TV) *gen.TV { return tvS(v) }, topA, false},
-		{"inline [2]T", func(i *gen.TD) *gen.TD { return oneInline("", arr2(i)) }, "array", func(v *gen.TV) *gen.TV { return tvS(v) }, topA, false},
-		{"inline map[string]T", func(i *gen.TD) *gen.TD { return oneInline("", tdOf("map", i)) }, "map", func(v *gen.TV) *gen.TV { return tvS(v) }, topA, false},
+		{"inline []T", func(i *gen.TD) *gen.TD { return oneInline("", tdOf("slice", i)) }, "list", func(v *gen.TV) *gen.TV { return tvS(v) }, topA, false, nil},
+		{"inline [2]T", func(i *gen.TD) *gen.TD { return oneInline("", arr2(i)) }, "array", func(v *gen.TV) *gen.TV { return tvS(v) }, topA, false, nil},
+		{"inline map[string]T", func(i *gen.TD) *gen.TD { return oneInline("", tdOf("map", i)) }, "map", func(v *gen.TV) *gen.TV { return tvS(v) }, topA, false, nil},
 		{"squash []T", func(i *gen.TD) *gen.TD {
 			h := oneInline("", tdOf("slice", i))
 			h.Fields[0].Inline, h.Fields[0].Policy = false, "squash"
 			return h
-		}, "list", func(v *gen.TV) *gen.TV { return tvS(v) }, topA, false},
-		{"*struct with inline []T", func(i *gen.TD) *gen.TD { return tdOf("ptr", oneInline("", tdOf("slice", i))) }, "list", func(v *gen.TV) *gen.TV { return tvPtr(tvS(v)) }, topA, false},
+		}, "list", func(v *gen.TV) *gen.TV { return tvS(v) }, topA, false, nil},
+		{"*struct with inline []T", func(i *gen.TD) *gen.TD { return tdOf("ptr", oneInline("", tdOf("slice", i))) }, "list", func(v *gen.TV) *gen.TV { return tvPtr(tvS(v)) }, topA, false, nil},
 		// the Unpack target itself is the collection
-		{"target map[string]T", func(i *gen.TD) *gen.TD { return tdOf("map", i) }, "map", same1, func(v *gen.Tree) *gen.Tree { return v }, true},
-		{"target []T", func(i *gen.TD) *gen.TD { return tdOf("slice", i) }, "list", same1, func(v *gen.Tree) *gen.Tree { return v }, true},
-		{"target [2]T", arr2, "array", same1, func(v *gen.Tree) *gen.Tree { return v }, true},
+		{"target map[string]T", func(i *gen.TD) *gen.TD { return tdOf("map", i) }, "map", same1, func(v *gen.Tree) *gen.Tree { return v }, true, nil},
+		{"target []T", func(i *gen.TD) *gen.TD { return tdOf("slice", i) }, "list", same1, func(v *gen.Tree) *gen.Tree { return v }, true, nil},
+		{"target [2]T", arr2, "array", same1, func(v *gen.Tree) *gen.Tree { return v }, true, nil},
 		// (sources that are maps or lists themselves only)
-		{"target T", func(i *gen.TD) *gen.TD { return i }, "", same1, func(v *gen.Tree) *gen.Tree { return v }, true},
+		{"target T", func(i *gen.TD) *gen.TD { return i }, "", same1, func(v *gen.Tree) *gen.Tree { return v }, true, nil},
 	}
 }
 
@@ -202,7 +256,7 @@ func enumGrid(yield0 func(Case) bool) {
 		return true
 	}
 	for _, vs := range validatorSources() {
-		for _, pl := range placements() {
+		for _, pl := range append(placements(), ifacePlacements()...) {
 			if k := vs.td.Shape().Kind; pl.name == "target T" && k != "map" && k != "slice" {
 				continue
 			}
@@ -241,6 +295,9 @@ func enumGrid(yield0 func(Case) bool) {
 				if (p.tv == nil && p.name != "zero") || (p.tv != nil && hasNilElem(p.tv)) {
 					continue // this validator has no such pre-filled value
 				}
+				if pl.dyn != nil && p.tv == nil {
+					continue // (a nil interface only takes generic data from the configuration)
+				}
 				for _, cf := range cfgs {
 					if (cf.v == nil && cf.name != "absent") || (cf.v != nil && hasNilVal(cf.v)) {
 						continue
@@ -248,6 +305,9 @@ func enumGrid(yield0 func(Case) bool) {
 					listPolicies = pl.coll == "list" && cf.v != nil && cf.v.K == "list" && len(cf.v.Vals) > 0
 					for _, ref := range []bool{false, true} {
 						c := Case{T: top, Cfg: gen.Obj()}
+						if pl.dyn != nil {
+							c.Dyn = pl.dyn(vs.td)
+						}
 						if pl.top {
 							// the configuration itself is the setting; nothing to deliver through a reference, and
 							// "not mentioned" is the empty configuration
